@@ -268,6 +268,8 @@ class C(Check):
             sz = r.s(2)
             if sz is not None and sz.st == 'ok':
                 try:
+                    if any(not isinstance(x, dict) or 't' not in x for x in sz.v['e']):
+                        raise Unmodelled('size not known to the library')
                     g = (int(gnum(sz.v['e'][0]['t']).a), int(gnum(sz.v['e'][1]['t']).a))
                     self.evaluations += 1
                     if g != (len(val), len(val[0])):
